@@ -85,6 +85,27 @@ def parse_rec(path):
     return out
 
 
+def lyman_clamps(repo):
+    """source scan of the two samplers: True if both clamp the temperature to [_temperature[0], _temperature[NUMTEMP-1]]
+    before locating it, False if neither does; anything else is not a shape the model knows"""
+    import re
+    res = []
+    for f, pre in (("HydrogenLymanContinuumSpectrum.cpp", "HYDROGEN"), ("HeliumLymanContinuumSpectrum.cpp", "HELIUM")):
+        src = open(os.path.join(repo, "src", f)).read()
+        body = src[src.index("::get_random_frequency("):]
+        body = body[:body.index("Utilities::locate(")]
+        body = re.sub(r"//[^\n]*", "", body)
+        mx = re.search(r"temperature\s*=\s*std::max\(\s*temperature\s*,\s*_temperature\[0\]\s*\)\s*;", body)
+        mn = re.search(r"temperature\s*=\s*std::min\(\s*temperature\s*,\s*_temperature\[\s*%sLYMANCONTINUUMSPECTRUM_NUMTEMP\s*-\s*1\s*\]\s*\)\s*;" % pre, body)
+        other = re.search(r"temperature\s*[-+*/]?=", re.sub(r"temperature\s*=\s*std::(max|min)\([^;]*;", "", body))
+        if other or (bool(mx) != bool(mn)) or (mx and mn and mx.start() > mn.start()):
+            raise ValueError("%s: get_random_frequency modifies the temperature in a way the model does not know" % f)
+        res.append(bool(mx))
+    if res[0] != res[1]:
+        raise ValueError("H and He Lyman continuum samplers treat the temperature differently")
+    return res[0]
+
+
 def cd(d):
     m, e = d
     return "(D %s %s)" % ("(%d)" % m if m < 0 else str(m), "(%d)" % e if e < 0 else str(e))
@@ -114,4 +135,6 @@ def coq_text(repo):
     o.append("Definition gen_fe : list (list dec) := [")
     o.append(";\n".join("  [" + "; ".join(cd(x) for x in line) + "]" for line in R["fe"]))
     o.append("].\n")
+    o.append("(* does get_random_frequency of the H / He Lyman continuum spectra clamp the temperature to the table first? (source scan) *)")
+    o.append("Definition gen_lyman_clamps : bool := %s.\n" % ("true" if lyman_clamps(repo) else "false"))
     return "\n".join(o), dict(A=A, B=B, C=C, R=R)
